@@ -510,7 +510,32 @@ def rule_e(ctx, out):
     out.ok({"implicit_concatenations": 0})
 
 
+def rule_f(ctx, out):
+    """The accumulators of the cost functions are separate objects.  AsmBlock.gas_spent keeps the set of warm account addresses and the
+    sets of warm / written storage slots apart: an access is priced by membership in *its* set.  `a = b = set()` binds one object to
+    both names, so a word touched as an address makes the slot with the same word look warm (and the price of a block depend on the
+    order of its accesses).  Project-wide lint: no chained assignment of a fresh mutable container to names that are each mutated."""
+    from ..core.idioms import aliased_accumulators
+    hits = list(aliased_accumulators(ctx))
+    for f, node, names in hits:
+        out.bad(f"accumulators-share-one-object:{f.qual.split('.', 1)[-1]}:{'='.join(names)}", f"{f.qual}: `{short(node, 80)}` binds one container to {names}, and each of "
+                f"them is filled separately afterwards: what is added to one is a member of the others", where(f, node))
+    # what the rule looked at: the multi-accumulator initialisations of the cost functions
+    n = 0
+    for q in ("sfs_generator.asm_block.AsmBlock.gas_spent", "sfs_generator.asm_block.AsmBlock.gas_spent_by_storage"):
+        f = ctx.p.func_opt(q)
+        if f is None:
+            continue
+        sets = [x for x in own_nodes(f.node) if isinstance(x, ast.Assign) and any(isinstance(c, ast.Call) and call_name(c) == "set" for c in ast.walk(x.value))]
+        n += len(sets)
+        if not [h for h in hits if h[0] is f]:
+            out.ok({"function": q, "accumulator_initialisations": [short(x, 70) for x in sets]})
+    if n < 2:
+        raise AnalysisError("the warm-address / warm-slot accumulators of AsmBlock.gas_spent were not found")
+
+
 RULES = [
+    ("C08.f", "accumulators of the cost functions are separate objects", 2, rule_f),
     ("C08.e", "price tables: static gas classes, nothing free, no missing comma", 120, rule_e),
     ("C08.a", "acceptance test dominates replacement", 2, rule_a),
     ("C08.b", "decision tables over the sign domain", 100, rule_b),
